@@ -213,9 +213,16 @@ impl CrashSpec for PlainHist {
 struct ZipOffsetHist {
     compress: u8,
     checksum: u8,
+    /// offset-index preset: "default" (16/32 bits), "memory" (12/24), "performance" (20/40)
+    offsets: &'static str,
+    /// additionally 70 records of 1000 bytes in front (content > 64 KiB, more than one offset block)
+    big: bool,
 }
 fn zo_records() -> Vec<Vec<u8>> {
     vec![b"".to_vec(), b"a".to_vec(), vec![b'x'; 300], (0..=255u8).collect(), b"tail-record".to_vec()]
+}
+fn zo_big_records() -> Vec<Vec<u8>> {
+    (0..70u32).map(|i| (0..1000u32).map(|j| (i * 7 + j * 13 + (j >> 3)) as u8).collect()).collect()
 }
 fn zo_state(s: &ZipOffsetBlobStore, n: u32) -> Vec<u8> {
     let mut out = (s.len() as u64).to_le_bytes().to_vec();
@@ -233,7 +240,17 @@ fn zo_state(s: &ZipOffsetBlobStore, n: u32) -> Vec<u8> {
 }
 impl CrashSpec for ZipOffsetHist {
     fn name(&self) -> String {
-        format!("ZipOffsetBlobStore[compress={},checksum={}]: build 5 records, save_to_file, load_from_file", self.compress, self.checksum)
+        if self.offsets == "default" && !self.big {
+            format!("ZipOffsetBlobStore[compress={},checksum={}]: build 5 records, save_to_file, load_from_file", self.compress, self.checksum)
+        } else {
+            format!(
+                "ZipOffsetBlobStore[compress={},checksum={},offsets={}{}]: build, save_to_file, load_from_file",
+                self.compress,
+                self.checksum,
+                self.offsets,
+                if self.big { ",75 records/70 KiB" } else { ",5 records" }
+            )
+        }
     }
     fn describe(&self) -> String {
         "builder -> finish -> save_to_file (128-byte header + content + offsets) -> load_from_file -> get every record".into()
@@ -242,18 +259,38 @@ impl CrashSpec for ZipOffsetHist {
         let mut cfg = ZipOffsetBlobStoreConfig::default();
         cfg.compress_level = self.compress;
         cfg.checksum_level = self.checksum;
+        cfg.offset_config = match self.offsets {
+            "memory" => zipora::blob_store::SortedUintVecConfig::memory_optimized(),
+            "performance" => zipora::blob_store::SortedUintVecConfig::performance_optimized(),
+            _ => cfg.offset_config,
+        };
         let mut b = ZipOffsetBlobStoreBuilder::with_config(cfg).map_err(es)?;
+        let mut n = 0u32;
+        if self.big {
+            for r in zo_big_records() {
+                b.add_record(&r).map_err(es)?;
+                n += 1;
+            }
+        }
         for r in zo_records() {
             b.add_record(&r).map_err(es)?;
+            n += 1;
         }
         let store = b.finish().map_err(es)?;
         store.save_to_file(dir.join("store.zo")).map_err(es)?;
-        rec.sync_point(zo_state(&store, 5));
+        rec.sync_point(zo_state(&store, n));
         Ok(())
     }
     fn reopen(&self, dir: &Path) -> Result<Vec<u8>, String> {
         let s = ZipOffsetBlobStore::load_from_file(dir.join("store.zo")).map_err(es)?;
-        Ok(zo_state(&s, 5))
+        Ok(zo_state(&s, if self.big { 75 } else { 5 }))
+    }
+    fn sector_sizes(&self, tier: zverif::Tier) -> Vec<usize> {
+        if self.big {
+            vec![512] // 70 KiB: 64-byte sectors would give > 1000 unsynced sectors per write
+        } else {
+            tier.pick(vec![512], vec![512, 64])
+        }
     }
     /// With record checksums (level >= 2) a damaged record is detected when it is read: `get` returns an error.  That is
     /// a refusal at record granularity; every record that IS served must be byte-identical and the count must agree.
@@ -530,8 +567,11 @@ fn main() {
     zverif::main_with("C19", |reg, _tier| {
         reg.add(Crash { spec: MmapVecHist, shim: &SHIM });
         reg.add(Crash { spec: PlainHist, shim: &SHIM });
-        reg.add(Crash { spec: ZipOffsetHist { compress: 0, checksum: 2 }, shim: &SHIM });
-        reg.add(Crash { spec: ZipOffsetHist { compress: 3, checksum: 3 }, shim: &SHIM });
+        reg.add(Crash { spec: ZipOffsetHist { compress: 0, checksum: 2, offsets: "default", big: false }, shim: &SHIM });
+        reg.add(Crash { spec: ZipOffsetHist { compress: 3, checksum: 3, offsets: "default", big: false }, shim: &SHIM });
+        reg.add(Crash { spec: ZipOffsetHist { compress: 0, checksum: 2, offsets: "memory", big: false }, shim: &SHIM });
+        reg.add(Crash { spec: ZipOffsetHist { compress: 0, checksum: 3, offsets: "performance", big: false }, shim: &SHIM });
+        reg.add(Crash { spec: ZipOffsetHist { compress: 0, checksum: 2, offsets: "default", big: true }, shim: &SHIM });
         reg.add(Crash { spec: ReorderHist { sign: 1 }, shim: &SHIM });
         reg.add(Crash { spec: ReorderHist { sign: -1 }, shim: &SHIM });
         reg.add(Crash { spec: DictHist, shim: &SHIM });
